@@ -2,6 +2,8 @@ SPECIFICATION GSpec
 CONSTANTS
   NSys = 2
   NOnce = 0
+  NW = 0
+  NER = 0
   NEnt = 1
   NTy = 1
   NVal = 1
@@ -17,7 +19,6 @@ CONSTANTS
   Defects = {}
   Mutants = {}
   Scripted = FALSE
-  Prog <- NoOps
 INVARIANT NoViol
 INVARIANT RcOK
 INVARIANT IdleAtRest
